@@ -266,6 +266,45 @@ func reachEnv(start []*ssa.BasicBlock, cut map[edge]bool, onState func(b *ssa.Ba
 			}
 		}
 	}
+	// a block that branches on `phi op K` for an integer phi of its own: arriving over an edge on which the phi takes a
+	// constant decides the branch for this visit (the first test of `for i := 0; i < 2; i++` is true)
+	type intBranch struct {
+		slot int
+		phi  *ssa.Phi
+		op   token.Token
+		k    int64
+		swap bool
+	}
+	ibr := map[*ssa.BasicBlock]intBranch{}
+	for _, b := range fn.Blocks {
+		if len(b.Succs) != 2 || len(b.Instrs) == 0 {
+			continue
+		}
+		ifi, ok := b.Instrs[len(b.Instrs)-1].(*ssa.If)
+		if !ok {
+			continue
+		}
+		bo, ok := ifi.Cond.(*ssa.BinOp)
+		if !ok {
+			continue
+		}
+		switch bo.Op {
+		case token.EQL, token.NEQ, token.LSS, token.LEQ, token.GTR, token.GEQ:
+		default:
+			continue
+		}
+		if ph, isPhi := bo.X.(*ssa.Phi); isPhi && ph.Block() == b {
+			if k, isK := constInt(bo.Y); isK {
+				ibr[b] = intBranch{nSlots, ph, bo.Op, k, false}
+				nSlots++
+			}
+		} else if ph, isPhi := bo.Y.(*ssa.Phi); isPhi && ph.Block() == b {
+			if k, isK := constInt(bo.X); isK {
+				ibr[b] = intBranch{nSlots, ph, bo.Op, k, true}
+				nSlots++
+			}
+		}
+	}
 	// value of a boolean under an environment: 0 false, 1 true, -1 unknown
 	var val func(v ssa.Value, env []int8) int8
 	val = func(v ssa.Value, env []int8) int8 {
@@ -355,7 +394,10 @@ func reachEnv(start []*ssa.BasicBlock, cut map[edge]bool, onState func(b *ssa.Ba
 			onState(b, func(v ssa.Value) int8 { return val(v, env) })
 		}
 		only := -1 // index of the only feasible successor, if decided
-		if len(b.Succs) == 2 {
+		if r, ok := ibr[b]; ok && it.env[r.slot] >= 0 {
+			only = 1 - int(it.env[r.slot])
+		}
+		if only < 0 && len(b.Succs) == 2 {
 			if ifi, ok := b.Instrs[len(b.Instrs)-1].(*ssa.If); ok {
 				decide := condEval != nil
 				if !decide {
@@ -446,6 +488,23 @@ func reachEnv(start []*ssa.BasicBlock, cut map[edge]bool, onState func(b *ssa.Ba
 			// entering s redefines the operands defined there
 			for _, k := range clearAt[s] {
 				set(k, -1)
+			}
+			if r, ok := ibr[s]; ok {
+				nv := int8(-1)
+				if pi >= 0 && pi < len(r.phi.Edges) {
+					if c0, isK := constInt(r.phi.Edges[pi]); isK {
+						x, y := c0, r.k
+						if r.swap {
+							x, y = r.k, c0
+						}
+						if intCmpTrue(r.op, x, y) {
+							nv = 1
+						} else {
+							nv = 0
+						}
+					}
+				}
+				set(r.slot, nv)
 			}
 			push(s, env)
 		}
